@@ -145,8 +145,32 @@ DIRECTED = [
 ]
 
 
+def union_directed():
+    """adding / removing union types at the first, a middle and the last place, at every position a union can take (step,
+    stream item, record field, union with null, alias, alias inside a vector): docs/cpp/evolution.md "Adding or removing types
+    to/from a Union" is partially compatible, i.e. accepted with a warning; the same union on both sides is silent"""
+    cases4 = ["int", "string", "float", "bool"]
+    def positions(u):
+        yield "step", f"P: !protocol\n  sequence:\n    s: {u}\n"
+        yield "stream-item", f"P: !protocol\n  sequence:\n    s: !stream\n      items: {u}\n"
+        yield "record-field", f"R: !record\n  fields:\n    a: int\n    u: {u}\nP: !protocol\n  sequence:\n    s: R\n"
+        yield "alias", f"U: {u}\nP: !protocol\n  sequence:\n    s: U\n"
+        yield "alias-in-vector", f"U: {u}\nR: !record\n  fields:\n    v: U*\nP: !protocol\n  sequence:\n    s: !stream\n      items: R\n"
+    def lit(cs, null):
+        return "[" + ", ".join((["null"] if null else []) + cs) + "]"
+    out = []
+    for null in (False, True):
+        for edit, old_cs, new_cs, want in (("remove-last", cases4, cases4[:3], "warn"), ("remove-last-two", cases4, cases4[:2], "warn"),
+                                           ("remove-first", cases4, cases4[1:], "warn"), ("remove-middle", cases4, [cases4[0]] + cases4[2:], "warn"),
+                                           ("add-last", cases4[:3], cases4, "warn"), ("add-first", cases4[1:], cases4, "warn"),
+                                           ("same", cases4, cases4, "ok")):
+            for (pos, oldm), (_, newm) in zip(positions(lit(old_cs, null)), positions(lit(new_cs, null))):
+                out.append((f"union-{edit}{'-with-null' if null else ''}-at-{pos}", oldm, newm, want, ""))
+    return out
+
+
 def directed(report, sc, inproc):
-    for name, oldm, newm, want, suffix in DIRECTED:
+    for name, oldm, newm, want, suffix in DIRECTED + union_directed():
         root = sc.path("d-" + name)
         for sub, text, man in (("old", oldm, "namespace: Evo\n"), ("new", newm, "namespace: Evo\nversions:\n  v0: ../old\n")):
             os.makedirs(os.path.join(root, sub), exist_ok=True)
